@@ -27,6 +27,7 @@ import time
 import common
 import c13_gen as g
 import c13_splat as sx
+import c13_forms as fx
 
 KNOWN_FP = "posonly-name-as-keyword-with-kwargs"
 
@@ -517,6 +518,8 @@ def run(res):
 
   # call sites with * / ** splats, calls through helper frames / forwarding lambdas / unbound access
   sx.run_legs(res, exe, common.rng(res.seed, "c13-splat"), thorough, fixed=(n_fx <= n_un))
+  # call forms (receiver insertion), constructors (Class.call vs type_call), overloaded stub functions
+  fx.run_legs(res, exe, common.rng(res.seed, "c13-forms"), thorough, fixed=(n_fx <= n_un))
 
   # the oracle's verdicts
   size = lambda c: (len(g.names_v(c[0], c[1])) + c[2][0] + len(c[2][1]), c[1] != "func")
@@ -572,6 +575,8 @@ def replay(res, path):
   d = json.load(open(path))["replay"]
   if d.get("kind") == "splat":
     return sx.replay(d, model_exe())
+  if d.get("kind") in ("form", "overload"):
+    return fx.replay(d)
   sig, variant, sh = sig_from_json(d["sig"]), d["variant"], (int(d["shape"][0]), tuple(d["shape"][1]))
   real, py = observe_one(sig, variant, sh)
   print("def   :", g.params_text(sig, variant), " [%s]" % variant)
